@@ -92,3 +92,117 @@ pub fn literal(v: &CelValue) -> Option<String> {
         _ => return None,
     })
 }
+
+use rscel::Program;
+use std::cell::RefCell;
+
+/// A user function kind for `bind_func`, mirrored by the model's `UserFn`.
+#[derive(Clone)]
+pub enum UserFn {
+    Arg0,
+    Const(CelValue),
+    Fail,
+}
+
+pub struct ExecOut {
+    pub obs: String,
+    pub log: String,
+}
+
+/// Full-featured execution: several named programs, bindings, logged user functions.
+/// Returns the observation of `exec(main)` and the call log in wire form.
+pub fn exec_full(progs: &[(String, Program)], main: &str, binds: &[(String, CelValue)], users: &[(String, UserFn)]) -> ExecOut {
+    let log: std::rc::Rc<RefCell<Vec<String>>> = std::rc::Rc::new(RefCell::new(Vec::new()));
+    let obs = {
+        let log = log.clone();
+        guarded(move || {
+            let mut ctx = CelContext::new();
+            for (n, p) in progs.iter() {
+                ctx.add_program(n, p.clone());
+            }
+            let closures: Vec<Box<dyn Fn(CelValue, Vec<CelValue>) -> CelValue>> = users
+                .iter()
+                .map(|(name, kind)| {
+                    let name = name.clone();
+                    let kind = kind.clone();
+                    let log = log.clone();
+                    Box::new(move |this: CelValue, args: Vec<CelValue>| {
+                        log.borrow_mut().push(format!(
+                            "{} {} {}",
+                            crate::wire::hex(name.as_bytes()),
+                            crate::wire::show_val(&this),
+                            crate::wire::show_val(&CelValue::List(args.clone()))
+                        ));
+                        match &kind {
+                            UserFn::Arg0 => args.get(0).cloned().unwrap_or(CelValue::Null),
+                            UserFn::Const(v) => v.clone(),
+                            UserFn::Fail => CelValue::from_err(rscel::CelError::value("user function failed")),
+                        }
+                    }) as Box<dyn Fn(CelValue, Vec<CelValue>) -> CelValue>
+                })
+                .collect();
+            let mut b = BindContext::new();
+            for (k, v) in binds.iter() {
+                b.bind_param(k, v.clone());
+            }
+            for ((name, _), c) in users.iter().zip(closures.iter()) {
+                b.bind_func(name, c.as_ref());
+            }
+            show_result(&ctx.exec(main, &b))
+        })
+    };
+    let entries = log.borrow().clone();
+    ExecOut { obs, log: format!("L:{}{}{}", entries.len(), if entries.is_empty() { "" } else { " " }, entries.join(" ")) }
+}
+
+/// Wire form of an environment for the model's `vm` command.
+pub fn env_wire(progs: &[(String, Program)], binds: &[(String, CelValue)], users: &[(String, UserFn)]) -> String {
+    let mut s = format!("P:{}", binds.len());
+    for (k, v) in binds {
+        s.push_str(&format!(" {} {}", crate::wire::hex(k.as_bytes()), crate::wire::show_val(v)));
+    }
+    s.push_str(&format!(" G:{}", progs.len()));
+    for (k, p) in progs {
+        s.push_str(&format!(" {} {}", crate::wire::hex(k.as_bytes()), code_wire(p)));
+    }
+    s.push_str(&format!(" U:{}", users.len()));
+    for (k, u) in users {
+        s.push_str(&format!(" {} ", crate::wire::hex(k.as_bytes())));
+        match u {
+            UserFn::Arg0 => s.push_str("arg0"),
+            UserFn::Const(v) => s.push_str(&format!("const {}", crate::wire::show_val(v))),
+            UserFn::Fail => s.push_str("fail value"),
+        }
+    }
+    s
+}
+
+pub fn code_wire(p: &Program) -> String {
+    let bc = p.bytecode();
+    let mut out = format!("c:{}", bc.len());
+    for i in bc.iter() {
+        out.push(' ');
+        crate::wire::write_instr(i, &mut out);
+    }
+    out
+}
+
+/// Compile under catch_unwind.
+pub fn compile(src: &str) -> Result<Program, String> {
+    let src = src.to_string();
+    let mut out: Option<Program> = None;
+    let r = {
+        let out = &mut out;
+        guarded(move || match Program::from_source(&src) {
+            Ok(p) => {
+                *out = Some(p);
+                "ok".to_string()
+            }
+            Err(e) => format!("e:{}", crate::wire::err_kind(&e)),
+        })
+    };
+    match out {
+        Some(p) => Ok(p),
+        None => Err(r),
+    }
+}
